@@ -137,9 +137,15 @@ def make_dataset(recipe, winds=True):
     arr = vals.reshape(lead_shape + spec_shape)
     names = lead_names + spec_names
     coords = {k: coord_values(k, n, recipe) for k, n in dims}
-    coords["freq"] = freq
+    coords["freq"] = freq.astype(recipe.get("freq_dtype", "float64"))
     if nd > 0:
-        coords["dir"] = make_dir(nd, recipe.get("dir", {}))
+        d = make_dir(nd, recipe.get("dir", {}))
+        ddt = recipe.get("dir_dtype", "float64")
+        if ddt.startswith("int") and not np.all(d == np.round(d)):
+            ddt = "float64"       # integer direction labels only when they are whole degrees
+        coords["dir"] = d.astype(ddt)
+    if recipe.get("site_labels") == "str" and "site" in coords:
+        coords["site"] = np.array([f"st{i:02d}" for i in range(len(coords["site"]))])
     da = xr.DataArray(arr, dims=names, coords=coords, name="efth")
     if not recipe.get("spec_last", True) and lead_names:
         da = da.transpose(*(spec_names + lead_names)).copy()
@@ -163,6 +169,8 @@ def make_dataset(recipe, winds=True):
         ds["wspd"] = (lead_names, np.round(rng.uniform(3, 25, shp), 2).astype(dtype))
         ds["wdir"] = (lead_names, np.round(rng.uniform(0, 360, shp), 1).astype(dtype))
         ds["dpt"] = (lead_names, np.round(rng.uniform(8, 400, shp), 1).astype(dtype))
+    if recipe.get("scalar_coord"):
+        ds = ds.assign_coords(cycle=np.datetime64("2020-01-01T00:00:00", "ns"))
     if recipe.get("std_attrs"):
         # attributes as the library's readers put them on datasets (static table, not a library call)
         std = {
@@ -197,5 +205,6 @@ def describe(recipe):
     return (
         f"{dims}|f{recipe['nf']}d{recipe.get('nd', 0)}|{recipe.get('dtype', 'float64')}|"
         f"{recipe.get('data', {}).get('kind', 'peaked')}|{recipe.get('dir', {}).get('order', 'asc')}"
-        f"{'|dirfirst' if recipe.get('dir_first') else ''}"
+        f"{'|dirfirst' if recipe.get('dir_first') else ''}{'|' + recipe['dir_dtype'] if recipe.get('dir_dtype', 'float64') != 'float64' else ''}"
+        f"{'|f32freq' if recipe.get('freq_dtype') == 'float32' else ''}{'|strsite' if recipe.get('site_labels') == 'str' else ''}"
     )
